@@ -21,6 +21,11 @@ func init() {
 					Type: "symbol|lambda",
 					Text: "The function to call.",
 				},
+				{
+					Name: "arg",
+					Type: "object",
+					Text: "The first argument to the _function_ or, if alone, the _list_ of arguments.",
+				},
 				{Name: "&rest"},
 				{
 					Name: "args",
